@@ -105,6 +105,11 @@ def shapes(tier):
             # a positional placeholder may refer to an argument written in named form (format_args! numbers named arguments too)
             ("bare_implicit_to_named_arg", '#[%s("{}", n = _1)]\n' % attr + two, c2, "s.1.id", "Display", True),
             ("bare_index0_to_named_arg", '#[%s("{0}", n = _0)]\n' % attr + two, c2, "s.0.id", "Display", False),
+            # a field whose raw-identifier name is a keyword, named in the literal without the `r#`
+            ("bare_field_raw_keyword", '#[%s("{type}")]\n' % attr + "pub struct S { pub r#type: Probe, pub y: Probe }",
+             "S { r#type: %s, y: %s }" % (P, P), "s.r#type.id", "Display", True),
+            ("bare_field_raw_keyword_typed", '#[%s("{fn:x}")]\n' % attr + "pub struct S { pub x: Probe, pub r#fn: Probe }",
+             "S { x: %s, r#fn: %s }" % (P, P), "s.r#fn.id", "LowerHex", False),
             ("bare_typed_to_named_arg", '#[%s("{:x}", v = self.1.pick())]\n' % attr + two, c2, "s.1.id", "LowerHex", False),
         ]
         for l, lt in LETTERS.items():
